@@ -261,6 +261,18 @@ func ExposureFlagNonInterference(p *core.Program, r *core.Report, rule string) {
 			// body: only expression statements (side-effect calls), no return/assignment to results, no else
 			pure := ifs.Else == nil
 			for _, st := range ifs.Body.List {
+				if as, isAs := st.(*ast.AssignStmt); isAs {
+					// an assignment to the blank identifier changes nothing
+					blank := true
+					for _, l := range as.Lhs {
+						if id, isID := l.(*ast.Ident); !isID || id.Name != "_" {
+							blank = false
+						}
+					}
+					if blank {
+						continue
+					}
+				}
 				if _, ok := st.(*ast.ExprStmt); !ok {
 					pure = false
 				}
